@@ -18,7 +18,7 @@ from hypothesis import strategies as st
 
 import yatiml
 
-from yv import gen, models, tree as T
+from yv import gen, legacy, models, tree as T
 from yv.common import canon, strict_eq
 from yv.props import c07
 from yv.runner import HypPhase
@@ -34,8 +34,12 @@ RULE = ('(load) Hypothesis draws a model and a document text (value-derived, '
         'multi-line content; the value has a class instance or a non-default '
         'option; distinct = distinct cases')
 ASSUMPTIONS = [
-    'PYTHONUTF8=1 pins the locale encoding used by Path.open(); texts that '
-    'cannot be encoded as UTF-8 (lone surrogates) are not generated',
+    'files are UTF-8 (or UTF-16 with a BOM for binary streams); texts that '
+    'cannot be encoded as UTF-8 (lone surrogates) are not generated. The main '
+    'phases run with PYTHONUTF8=1; the *_c_locale phases repeat the check in a '
+    'child interpreter with LC_ALL=C, UTF-8 mode and locale coercion off, where '
+    'the locale encoding is ASCII (stands for any non-UTF-8 locale / Windows '
+    'code page)',
     'source names in messages differ by design; errors are compared by '
     'exception class and the set of cited (line, column) pairs',
 ]
@@ -120,6 +124,10 @@ def scratch():
 
 
 def check(case, ctx):
+    if case.get('locale') and not legacy.in_child():
+        # same check, in an interpreter whose locale encoding is not UTF-8
+        legacy.forward(ID, case, ctx)
+        return
     if case['kind'] == 'load':
         check_load(case, ctx)
     else:
@@ -169,6 +177,8 @@ def check_load(case, ctx):
         outs.append((name, outcome(fn)))
     base = outs[0][1]
     ctx.count('load_' + base[0])
+    if any(ord(c) > 127 for c in text):
+        ctx.count('load_non_ascii_document_' + base[0])
     multi = '\n' in text.strip() or any(ord(c) > 127 for c in text) or \
         sum(text.count(c) for c in ':,-') >= 1
     if multi:
@@ -223,6 +233,8 @@ def check_dump(case, ctx):
         ctx.count('not_utf8_encodable')
         return
     ctx.count('dump_json' if case['json'] else 'dump_yaml')
+    if len(want_bytes) != len(want):
+        ctx.count('dump_non_ascii_output')
     from yv.common import is_gen_obj
     if kw or is_gen_obj(value) or (isinstance(value, (list, dict)) and value):
         ctx.nontriv([spec, case['value'], case['json'], kw.get('indent'), kw.get('ensure_ascii')])
@@ -263,8 +275,14 @@ def check_dump(case, ctx):
 
 def phases(tier):
     quick = tier != 'thorough'
+    def c_locale(c):
+        return dict(c, locale='C')
     return [HypPhase('load_sources', load_cases(), 150 if quick else 2500),
-            HypPhase('dump_sinks', dump_cases(), 150 if quick else 2500)]
+            HypPhase('dump_sinks', dump_cases(), 150 if quick else 2500),
+            HypPhase('load_sources_c_locale', load_cases().map(c_locale),
+                     60 if quick else 800),
+            HypPhase('dump_sinks_c_locale', dump_cases().map(c_locale),
+                     60 if quick else 800)]
 
 
 def teardown():
